@@ -28,11 +28,17 @@ fn gen_text(rng: &mut Rng, braces_ok: bool) -> String {
         2 => rng.range(100, 200) as usize,
         _ => rng.range(1, 40) as usize,
     };
-    let alphabet: Vec<char> = "abcXYZ 019_:-.,;!?'\"\\\t\n#()[]<>/=+*&^%$@~`|é中𝄞ß→".chars().collect();
+    let alphabet: Vec<char> = "abcXYZ 019_:-.,;!?'\"\\\t\n\r\0\u{7f}\u{1b}#()[]<>/=+*&^%$@~`|é中𝄞ß→\u{feff}\u{2028}\u{301}\u{1F600}\u{a0}".chars().collect();
+    // sequences a "normalising" or token-based implementation is likely to treat specially
+    let special = ["\r\n", "\n\r", "\r", "\\n", "\\r\\n", "\\u{41}", "\\x41", "\\\n   x", "//", "/*", "*/", "\"#", "r#\"", "\\\"", "\\\\", "\\0", "%s", "\u{0}"];
     let mut s = String::new();
     while s.len() < n {
-        let c = *rng.pick(&alphabet);
-        s.push(c);
+        if rng.chance(1, 12) {
+            s.push_str(*rng.pick(&special[..]));
+        } else {
+            let c = *rng.pick(&alphabet);
+            s.push(c);
+        }
     }
     if !braces_ok {
         s = s.replace('{', "(").replace('}', ")");
@@ -44,13 +50,41 @@ fn gen_text(rng: &mut Rng, braces_ok: bool) -> String {
     }
     s
 }
-fn string_literal(rng: &mut Rng, s: &str) -> String {
-    if rng.chance(1, 4) {
-        if let Some(r) = raw_lit(s) {
-            return r;
+/// a cooked string literal denoting `s`, every character written in a randomly chosen
+/// one of its legal spellings, with string continuations (backslash-newline-indent)
+/// sprinkled in where they do not change the value
+fn lit_mixed(rng: &mut Rng, s: &str) -> String {
+    let mut out = String::from("\"");
+    let cs: Vec<char> = s.chars().collect();
+    for (i, &c) in cs.iter().enumerate() {
+        if i > 0 && !c.is_whitespace() && rng.chance(1, 15) {
+            out.push_str("\\\n      "); // continuation: skipped together with the indentation
+        }
+        let named = match c { '\n' => Some("\\n"), '\r' => Some("\\r"), '\t' => Some("\\t"), '\\' => Some("\\\\"), '\0' => Some("\\0"), '"' => Some("\\\""), '\'' => Some("\\'"), _ => None };
+        let must_escape = c == '"' || c == '\\' || c == '\r' || c == '\0';
+        match rng.below(4) {
+            0 if (c as u32) < 0x80 => out.push_str(&format!("\\x{:02x}", c as u32)),
+            1 => out.push_str(&format!("\\u{{{:x}}}", c as u32)),
+            2 if named.is_some() => out.push_str(named.unwrap()),
+            _ => {
+                if must_escape { out.push_str(&format!("\\u{{{:x}}}", c as u32)) } else { out.push(c) }
+            }
         }
     }
-    lit_debug(s)
+    out.push('"');
+    out
+}
+fn string_literal(rng: &mut Rng, s: &str) -> String {
+    match rng.below(4) {
+        0 => {
+            if let Some(r) = raw_lit(s) {
+                return r;
+            }
+            lit_debug(s)
+        }
+        1 => lit_mixed(rng, s),
+        _ => lit_debug(s),
+    }
 }
 
 // ===================================================================== C18
